@@ -61,16 +61,16 @@ func vfErrClass(err error) string {
 }
 
 type vfDialWorld struct {
-	rec    *vfRec
-	mu     sync.Mutex
-	script []map[string]any
-	pos    int
-	cur    map[string]any // dial entry being consumed
-	inDial bool
-	sysctl bool
-	restore string
-	nsock  int
-	cancel context.CancelFunc
+	rec       *vfRec
+	mu        sync.Mutex
+	script    []map[string]any
+	pos       int
+	cur       map[string]any // dial entry being consumed
+	inDial    bool
+	sysctl    bool
+	restore   string
+	nsock     int
+	cancel    context.CancelFunc
 	cancelled bool
 }
 
